@@ -20,7 +20,7 @@ RULE = ('molecules of 1..12 fragments on a random reference: random overlaps bet
 ASSUMPTIONS = ['fragments are forced into one molecule through the internal add so the equality rules do not filter the input',
                'each fragment with a read 1 contributes one call per position: the higher-quality mate; equal quality with different bases, or N: no vote']
 MIN_NONTRIVIAL = {'quick': 300, 'thorough': 30000}
-REQUIRED_MONITORS = ['ret:get_consensus', 'ret:get_consensus_dove_safe', 'oracle:positions_compared', 'oracle:tied_positions', 'meta:permutations', 'meta:duplications', 'history:repeated_requests', 'history:grown_molecule', 'lib:deep_molecules', 'ret:get_consensus_with_probs_and_obs', 'ret:get_consensus_base', 'lib:gapped_reads']
+REQUIRED_MONITORS = ['ret:get_consensus', 'ret:get_consensus_dove_safe', 'oracle:positions_compared', 'oracle:tied_positions', 'meta:permutations', 'meta:duplications', 'history:repeated_requests', 'history:grown_molecule', 'lib:deep_molecules', 'ret:get_consensus_with_probs_and_obs', 'ret:get_consensus_base', 'lib:gapped_reads', 'ret:get_consensus_dove_safe_with_distances']
 SHARD_TIMEOUT = {'quick': 900, 'thorough': 5400}
 REF_LEN = 400
 
@@ -197,6 +197,9 @@ def ref_end(rec):
     return rec['pos'] + sum(int(n) for n, op in re.findall(r'(\d+)([MIDNS=X])', rec['cigar']) if op in 'MDN=X')
 
 
+DOVE_DIST = [(0, 0)]
+
+
 def oracle(frags, dove_safe, pos_filter=None):
     votes = defaultdict(Counter)
     ties = 0
@@ -212,10 +215,11 @@ def oracle(frags, dove_safe, pos_filter=None):
             rev1 = bool(r1['flag'] & 16)
             rev2 = bool(r2['flag'] & 16)
             e1, e2 = ref_end(r1), ref_end(r2)
+            d1, d2 = DOVE_DIST[0]    # bases trimmed from the 5' end of the mate each distance is named after
             if rev1 and not rev2:
-                lo, hi = r2['pos'], e1 - 1
+                lo, hi = r2['pos'] + d2, e1 - 1 - d1
             elif not rev1 and rev2:
-                lo, hi = r1['pos'], e2 - 1
+                lo, hi = r1['pos'] + d1, e2 - 1 - d2
             else:
                 continue
         calls = defaultdict(list)
@@ -286,12 +290,20 @@ def run_case(case):
     # callers use): the calls are the same
     want_obs = [r.random() < 0.4]
 
+    # the mate-overlap-safe window can be narrowed by a distance per mate (dove_R1_distance / dove_R2_distance); a third of the molecules are
+    # requested with two different distances
+    DOVE_DIST[0] = (r.choice([0, 3, 8]), r.choice([0, 6, 12])) if case['i'] % 3 == 1 else (0, 0)
+
     def observe(m, dove):
+        kw = {}
+        if dove and DOVE_DIST[0] != (0, 0):
+            kw = {'dove_R1_distance': DOVE_DIST[0][0], 'dove_R2_distance': DOVE_DIST[0][1]}
+            acc.count('ret:get_consensus_dove_safe_with_distances')
         if want_obs[0]:
             acc.count('ret:get_consensus_with_probs_and_obs')
-            got = m.get_consensus(dove_safe=dove, with_probs_and_obs=True)[0]
+            got = m.get_consensus(dove_safe=dove, with_probs_and_obs=True, **kw)[0]
         else:
-            got = m.get_consensus(dove_safe=dove)
+            got = m.get_consensus(dove_safe=dove, **kw)
         return {k[1]: v for k, v in got.items()}
     wit = {'fragments': [[(x['flag'], x['pos'], x['seq'], x['qual'][:3]) if x else None for x in f['recs']] for f in frags]}
     for dove in (False, True):
@@ -333,6 +345,7 @@ def run_case(case):
             acc.violate('consensus-changes-when-every-fragment-is-duplicated', f'duplicating every fragment changes the consensus (dove_safe={dove})', wit)
         if ties or disagree:
             acc.sigs.add(f"{case['i']}/{dove}")
+    DOVE_DIST[0] = (0, 0)
     # ---- the per-position accessor answers like the consensus (None where the consensus has no call)
     exp_plain = oracle(frags, False)[0]
     m0 = build(range(n))
